@@ -3,12 +3,14 @@
    the give kernel accumulates for <A x, y> (and, by C03, what the take kernel computes).
    PROVED: symmetry on vectors vanishing on Dirichlet nodes; <A x, x> >= 0 under the coefficient
    inequalities that C03_coefficients_admissible establishes for every invertible mapping; the
-   4 arr att - art^2 = alpha^2 identity.
-   PARTIAL: strict definiteness (x <> 0 -> <A x, x> > 0) is not proved; across the origin the
-   non-negativity needs art(0, .) = 0 (orthogonal mapping at R0): observation F9.
+   4 arr att - art^2 = alpha^2 identity; STRICT definiteness: <A x, x> > 0 for every x vanishing on the
+   Dirichlet nodes and non-zero somewhere on the grid, when art^2 < 4 arr att (alpha > 0), for every grid size
+   (induction from the outer boundary inwards), for the model and for the generated give kernel.
+   PARTIAL: across the origin the non-negativity (hence definiteness) needs art(0, .) = 0 (orthogonal mapping
+   at R0): observation F9; the line blocks of the smoothers are covered with C06.
    (* FULL: forall x <> 0 vanishing on Dirichlet nodes, 0 < form all_nodes x x, for every geometry *) *)
-From Coq Require Import List ZArith Bool Reals.
-From GMGP Require Import Scalar ScalarR InterpDefs StencilDefs StencilProofs StencilTie.
+From Coq Require Import List ZArith Bool Reals Lra.
+From GMGP Require Import Scalar ScalarR InterpDefs StencilDefs StencilProofs StencilDefinite StencilTie.
 From GMGPGen Require Import StencilGen.
 Import ListNotations.
 Local Open Scope R_scope.
@@ -66,6 +68,47 @@ Theorem C05_generated_operator_positive_semidefinite_partial :
   vanishes_on_dirichlet nr dirbc x -> 0 <= gen_form nr nth h k rad arr att art det beta dirbc nodes x x.
 Proof. exact gen_form_nonneg. Qed.
 
+(* strict positive definiteness, every grid size; [nodes] is any list containing every grid node *)
+Theorem C05_A_positive_definite :
+  forall (nr nth : Z) (h k : Z -> R) (R0 : R) (arr att art det : Z -> Z -> R) (beta : Z -> R) (dirbc : bool),
+  (4 <= nr)%Z ->
+  (forall x : Z, 0 < h x) -> (forall x : Z, 0 < k x) -> 0 < R0 ->
+  (forall i j : Z, 0 < arr i j) -> (forall i j : Z, 0 < att i j) ->
+  (forall i j : Z, art i j ^ 2 < 4 * arr i j * att i j) -> (forall i : Z, 0 <= beta i) ->
+  (dirbc = false -> forall j : Z, art 0%Z j = 0) ->
+  forall (nodes : list (Z * Z)) (x : Z -> Z -> R),
+  (forall p : Z * Z, In p nodes -> (0 <= fst p < nr)%Z) ->
+  (forall i j : Z, (0 <= i < nr)%Z -> (0 <= j < nth)%Z -> In (i, j) nodes) ->
+  vanishes_on_dirichlet nr dirbc x ->
+  (exists i j : Z, (0 <= i < nr)%Z /\ (0 <= j < nth)%Z /\ x i j <> 0) ->
+  0 < @form Rsc nr nth h k R0 arr att art det beta dirbc nodes x x.
+Proof. exact form_positive_definite. Qed.
+
+Theorem C05_generated_operator_positive_definite :
+  forall (nr nth : Z) (h k rad : Z -> R) (arr att art det : Z -> Z -> R) (beta : Z -> R) (dirbc : bool),
+  (4 <= nr)%Z -> (2 <= nth)%Z ->
+  (forall x : Z, 0 < h x) -> (forall x : Z, 0 < k x) -> 0 < rad 0%Z ->
+  (forall i j : Z, 0 < arr i j) -> (forall i j : Z, 0 < att i j) ->
+  (forall i j : Z, art i j ^ 2 < 4 * arr i j * att i j) -> (forall i : Z, 0 <= beta i) ->
+  (dirbc = false -> forall j : Z, art 0%Z j = 0) ->
+  forall (nodes : list (Z * Z)) (x : Z -> Z -> R),
+  (forall p : Z * Z, In p nodes -> (0 <= fst p < nr)%Z /\ (0 <= snd p < nth)%Z) ->
+  (forall i j : Z, (0 <= i < nr)%Z -> (0 <= j < nth)%Z -> In (i, j) nodes) ->
+  vanishes_on_dirichlet nr dirbc x ->
+  (exists i j : Z, (0 <= i < nr)%Z /\ (0 <= j < nth)%Z /\ x i j <> 0) ->
+  0 < gen_form nr nth h k rad arr att art det beta dirbc nodes x x.
+Proof. exact gen_form_positive_definite. Qed.
+
+(* the premises are satisfiable: unit spacings, the circular-geometry coefficients arr = att = 1, art = 0 *)
+Example C05_premises_hold_somewhere :
+  (forall x : Z, 0 < (fun _ : Z => 1) x) /\ (forall i j : Z, ((fun _ _ : Z => 0) i j) ^ 2 < 4 * ((fun _ _ : Z => 1) i j) * ((fun _ _ : Z => 1) i j)) /\
+  @vanishes_on_dirichlet 5%Z true (fun i j => if (i =? 2)%Z then 1 else 0).
+Proof.
+  split; [intros; lra|split; [intros; cbn; lra|]].
+  split; [intros j; reflexivity|intros _ j; reflexivity].
+Qed.
+
 Print Assumptions C05_A_symmetric.
+Print Assumptions C05_A_positive_definite.
 Print Assumptions C05_generated_operator_symmetric.
 Print Assumptions C05_A_positive_semidefinite_partial.
